@@ -488,12 +488,14 @@ class GridFlow(WidgetWrap[Pile], WidgetContainerMixin, WidgetContainerListConten
 
     def get_cursor_coords(self, size: tuple[int] | tuple[()]) -> tuple[int, int]:
         """Get cursor from display widget."""
-        self.get_display_widget(size)
+        if not hasattr(self.get_display_widget(size), "get_cursor_coords"):
+            return None  # no cells: the display widget is a Divider
         return super().get_cursor_coords(size)
 
     def move_cursor_to_coords(self, size: tuple[int] | tuple[()], col: int, row: int):
         """Set the widget in focus based on the col + row."""
-        self.get_display_widget(size)
+        if not hasattr(self.get_display_widget(size), "move_cursor_to_coords"):
+            return False  # no cells: the display widget is a Divider
         rval = super().move_cursor_to_coords(size, col, row)
         self._set_focus_from_display_widget()
         return rval
@@ -514,5 +516,6 @@ class GridFlow(WidgetWrap[Pile], WidgetContainerMixin, WidgetContainerListConten
 
     def get_pref_col(self, size: tuple[int] | tuple[()]):
         """Return pref col from display widget."""
-        self.get_display_widget(size)
+        if not hasattr(self.get_display_widget(size), "get_pref_col"):
+            return None  # no cells: the display widget is a Divider
         return super().get_pref_col(size)
